@@ -4,3 +4,5 @@
 pub mod errflow;
 pub mod hashorder;
 pub mod cast;
+pub mod lock;
+pub mod orpat;
